@@ -1,5 +1,8 @@
 pub mod canon;
+pub mod drive;
 pub mod gen;
 pub mod model;
+pub mod mutate;
 pub mod refcodec;
 pub mod runner;
+pub mod sched;
